@@ -130,3 +130,14 @@ func GenSpec(t *rapid.T) *Spec {
 	}
 	return s
 }
+
+// DefaultSpec is a small fixed genesis specification for deterministic regression cases.
+func DefaultSpec() *Spec {
+	return &Spec{
+		NEntities: 2, NodesPerEntity: []int{1, 1}, NodeRoles: [][]int{{1}, {1}}, NUsers: 2, EpochInterval: 3, DebondingIv: 1, MaxNodeExp: 4,
+		MaxValidators: 2, MaxValPerEntity: 1, SelfStake: []uint64{100000, 50000}, SelfShares: []uint64{100000, 50000}, General: []uint64{1000, 1000},
+		UserBalance: []uint64{100000, 100000}, CommonPool: 1000000, ThresholdEntity: 10, ThresholdNode: 10, FeeWeights: [3]uint64{1, 1, 1},
+		RewardScale: 1000, RewardProposed: 1, RewardSigned: 1, SlashAmount: 100, SlashFreeze: 1, GasOp: 10, MaxTxSize: 32768,
+		GovVotingPeriod: 2, GovStakeThresh: 90, GovMinDeposit: 10,
+	}
+}
